@@ -70,6 +70,9 @@ func (fr *Frame) execInstr(st *State, in ssa.Instruction) {
 		}
 		Heap{st: st, log: curLog}.storeDeref(r, et, zeroVal(et))
 		fr.vals[x] = &Val{K: VScalar, T: x.Type(), X: r}
+		if _, isStruct := et.Underlying().(*types.Struct); isStruct {
+			fr.zeroGhost(st, r)
+		}
 		if shortTypeKey(et) == "bytes.Buffer" {
 			// trusted: the zero bytes.Buffer is an empty, accepting, fault-free stream
 			h := Heap{st: st, log: curLog}
@@ -166,6 +169,7 @@ func (fr *Frame) execInstr(st *State, in ssa.Instruction) {
 		fr.vals[x] = scalar(x.Type(), r)
 	case *ssa.MakeChan:
 		r := c.newRef(st, "chan")
+		fr.zeroGhost(st, r)
 		fr.vals[x] = scalar(x.Type(), r)
 	case *ssa.MakeInterface:
 		v := fr.get(st, x.X)
@@ -758,4 +762,19 @@ func (fr *Frame) execNext(st *State, x *ssa.Next) *Val {
 	val := c.mapGet(st, m.X, mt, kv)
 	c.heapValFacts(st, val)
 	return &Val{K: VTuple, T: x.Type(), Fs: []*Val{scalar(types.Typ[types.Bool], ok), kv, val}}
+}
+
+// zeroGhost: ghost state of a freshly allocated object starts at zero / false (ghost counters count
+// events since creation).
+func (fr *Frame) zeroGhost(st *State, r *Term) {
+	h := Heap{st: st, log: curLog}
+	for _, name := range fr.c.eng.ghostOrder {
+		gf := fr.c.eng.ghostFields[name]
+		switch gf.Type {
+		case "int":
+			h.storeGhost(r, gf, Num(0))
+		case "bool":
+			h.storeGhost(r, gf, False)
+		}
+	}
 }
